@@ -18,6 +18,7 @@ import json
 import random
 import time
 import subprocess
+from concurrent.futures import ThreadPoolExecutor
 from pathlib import Path
 
 from .. import PY, VERIF
@@ -122,20 +123,20 @@ def describe(t, reached, confine=False):
 def run(ctx):
     ev, v = ctx.ev, ctx.v
     thorough = ctx.thorough
-    # ---- 1. theorem + sensitivity
+    # ---- 1. theorem + sensitivity (TLC runs in the background while the cases are replayed; joined below)
     uni, mm, mk = ("MT_C09", 2, 2)
-    r = run_tlc("Archive", "SPECIFICATION Spec\n" + BASE % (uni, mm, mk, "") + INVS, scratch=ctx.scratch, timeout=1500)
-    ev.tlc(f"Archive: reference design, {uni} lists <= {mm}, histories k <= {mk}: all invariants", r)
+    pool = ThreadPoolExecutor(max_workers=3)
+    jobs = [(f"Archive: reference design, {uni} lists <= {mm}, histories k <= {mk}: all invariants", None,
+             pool.submit(run_tlc, "Archive", "SPECIFICATION Spec\n" + BASE % (uni, mm, mk, "") + INVS,
+                         scratch=ctx.scratch, timeout=1500, workers=4))]
     if thorough:
-        r3 = run_tlc("Archive", "SPECIFICATION Spec\n" + BASE % ("MT_C09s", 3, 1, "") + INVS, scratch=ctx.scratch,
-                     timeout=2400, heap="8g")
-        ev.tlc("Archive: reference design, MT_C09s lists <= 3, histories k <= 1: all invariants", r3)
+        jobs.append(("Archive: reference design, MT_C09s lists <= 3, histories k <= 1: all invariants", None,
+                     pool.submit(run_tlc, "Archive", "SPECIFICATION Spec\n" + BASE % ("MT_C09s", 3, 1, "") + INVS,
+                                 scratch=ctx.scratch, timeout=2400, heap="8g", workers=4)))
     for d in (SENS if thorough else ["RereadUnchecked", "NoCleanupOnEarlyExit"]):
-        rs = run_tlc("Archive", "SPECIFICATION Spec\n" + BASE % (uni, mm, mk, f'"{d}"') + INVS, scratch=ctx.scratch,
-                     expect_fail=True, timeout=900)
-        ev.tlc(f"Archive sensitivity: deviation {d} must violate {SENS[d]}", rs, note="expected violation")
-        if not rs.violated:
-            raise MachineryError(f"sensitivity run with deviation {d} did not fail: invariant vacuous")
+        jobs.append((f"Archive sensitivity: deviation {d} must violate {SENS[d]}", d,
+                     pool.submit(run_tlc, "Archive", "SPECIFICATION Spec\n" + BASE % (uni, mm, mk, f'"{d}"') + INVS,
+                                 scratch=ctx.scratch, expect_fail=True, timeout=900, workers=4)))
     # ---- 2. enumerate cases, run them
     if thorough:
         rg, cases = dump_cases(ctx, "MT_C09s", 3, 1, "c09gen")
@@ -164,6 +165,14 @@ def run(ctx):
     traces = run_workers(ctx, cases, True, "c09")
     traces += run_workers(ctx, big, True, "c09big", nworkers=3, limit=0)       # the default 10 MB limit
     ctx.log(f"workers done in {time.time() - t0:.1f}s, {len(traces)} traces")
+    for name, d, fut in jobs:                      # join the TLC theorem / sensitivity runs
+        r = fut.result()
+        ev.tlc(name, r, note="expected violation" if d else "")
+        if d and not r.violated:
+            raise MachineryError(f"sensitivity run with deviation {d} did not fail: invariant vacuous")
+        if not d and r.violated:
+            v.violation(what=f"Archive.tla: {r.violated} violated on the reference design", observed=r.trace[-2:])
+    pool.shutdown()
     dbg = [t.pop("dbg") for t in traces]
     br = validate("ArchiveTrace", TRACE_CFG % "confine", traces, scratch=ctx.scratch, parallel=12, min_chunk=300,
                   timeout=1800)
